@@ -84,6 +84,9 @@ def roundtrip(ctx, dn, directed, idkind, delim, enc, target):
             ctx.cell(c)
         if target in ("fileobj", "bytesio"):
             ctx.expect("fileobj-left-open", tgt.closed_by_library, False, cfg)
+        elif tgt.opened:
+            # files the library opened for a path target must be closed when the call returns
+            ctx.expect("path-target-closed", tgt.left_open, [], cfg)
         rows, trailing = iohelp.rows_of(tgt.data(), enc, delim)
         ctx.expect("rows:newline-terminated", trailing, "", cfg)
         ctx.expect("rows==stream", rows, [tuple(str(x) for x in ev) for ev in stream], cfg)
